@@ -111,10 +111,18 @@ fn ts_oracle(doc: &[u8]) -> String {
             spans.push(&doc[s..]);
         }
     }
+    // the deserialiser normalises line ends before it parses (XML 1.0 2.11): the parser sees CR LF and CR as LF
+    let mut spans: Vec<Vec<u8>> = spans.into_iter().map(<[u8]>::to_vec).collect();
+    let normalised: Vec<Vec<u8>> = spans
+        .iter()
+        .filter(|sp| sp.contains(&b'\r'))
+        .filter_map(|sp| std::str::from_utf8(sp).ok().map(|s| s.replace("\r\n", "\n").replace('\r', "\n").into_bytes()))
+        .collect();
+    spans.extend(normalised);
     spans.sort_unstable();
     spans.dedup();
     let mut out = Vec::new();
-    for sp in spans {
+    for sp in &spans {
         if !sp.is_ascii() {
             continue;
         }
@@ -210,7 +218,8 @@ fn escape_canon(s: &str) -> Vec<u8> {
 enum Style {
     /// exactly what s3s writes
     Canon,
-    /// entity and character references chosen freely, `'` `"` left alone, CR as `&#13;`
+    /// entity and character references chosen freely, `'` `"` left alone, CR as `&#13;`, LF also as a literal CR LF
+    /// or CR (XML 1.0 2.11: both denote LF)
     Free,
     /// additionally CDATA sections and comments / PIs inside character data
     Wild,
@@ -273,6 +282,8 @@ fn text_nodes(rng: &mut Rng, s: &str, style: Style) -> Vec<Node> {
                 out.extend_from_slice(rng.pick(&[&b"<!-- c -->"[..], b"<!---->", b"<?pi x?>", b"<!-- <b> & -->"]));
                 continue_char(&mut out, c);
             }
+            // a line end written the DOS / old Mac way
+            4 | 5 | 6 if c == '\n' => out.extend_from_slice(rng.pick(&[&b"\r\n"[..], b"\r"])),
             _ => continue_char(&mut out, c),
         }
         i += 1;
